@@ -24,6 +24,7 @@ type ExpTarget struct {
 	End      int
 	DefStart int
 	DefEnd   int
+	NoDef    bool // the target carries no definition range (a reference that declares the address it names)
 }
 
 func (t ExpTarget) String() string {
@@ -237,6 +238,15 @@ func ExpectedTargets(root *m.BodyM, body *hclsyntax.Body) TargetModel {
 			}
 			if hasSelfAddressingRef(as.Cons) {
 				tm.Sources = append(tm.Sources, Source{"selfaddr", regionOf(a.Expr.Range()), "*"})
+				// a plain reference written directly under a reference constraint that declares
+				// addresses: the address it names, in the constraint's scope, at exactly that text
+				if st, ok := a.Expr.(*hclsyntax.ScopeTraversalExpr); ok && as.Cons.K == "ref" && as.Cons.AddrScope != "" {
+					if addr, ok := traversalString(st.Traversal); ok && !strings.ContainsAny(addr, "[\"") {
+						tm.Expected = append(tm.Expected, ExpTarget{Kind: "ref:declares-address", Addr: addr, Scope: as.Cons.AddrScope, Type: "nil",
+							Start: st.SrcRange.Start.Byte, End: st.SrcRange.End.Byte, NoDef: true})
+						tm.Classes["reference-declaring-address"] = true
+					}
+				}
 			}
 			addr, ok := ResolveAttrAddr(*as, name)
 			if !ok {
